@@ -82,8 +82,9 @@ impl O {
             (O::Cx(a, b), O::Cx(c, d)) => a == c && b == d,
             (O::Rat(a), O::Rat(b)) => a == b,
             (O::Poly(a), O::Poly(b)) => {
-                // coefficient-wise; trailing zeros (the `len` field) are a representation detail
-                let n = a.len().max(b.len());
+                // coefficient-wise in the truncated ring R[x]/(x^32); trailing zeros (the `len`
+                // field) are a representation detail
+                let n = a.len().max(b.len()).min(MAX_COEFFS);
                 (0..n).all(|i| a.get(i).cloned().unwrap_or(0.0) == b.get(i).cloned().unwrap_or(0.0))
             }
             _ => false,
@@ -267,10 +268,10 @@ impl Sem for Polynomial<RealSemiring> {
         match o {
             O::Poly(v) => {
                 let mut p = Polynomial::<RealSemiring>::zero();
-                for (i, c) in v.iter().enumerate() {
+                for (i, c) in v.iter().enumerate().take(MAX_COEFFS) {
                     p.coefficients[i] = RealSemiring(*c);
                 }
-                p.len = v.len();
+                p.len = v.len().min(MAX_COEFFS);
                 p
             }
             _ => unreachable!(),
@@ -283,7 +284,15 @@ impl Sem for Polynomial<RealSemiring> {
         O::Poly(vec![1.0])
     }
     fn alphabet() -> Vec<(O, O)> {
-        vec![(O::Poly(vec![1.0, -1.0]), O::Poly(vec![0.0, 1.0])), (O::Poly(vec![0.5]), O::Poly(vec![0.5])), (O::Poly(vec![0.75, -0.5]), O::Poly(vec![0.25, 0.5]))]
+        // the last pair has degree 11: three of them multiply to degree 33, beyond the 32 kept
+        // coefficients, so the truncation of products is exercised
+        let mut lo = vec![0.0; 12];
+        let mut hi = vec![0.0; 12];
+        lo[0] = 0.75;
+        lo[11] = -0.5;
+        hi[0] = 0.25;
+        hi[11] = 0.5;
+        vec![(O::Poly(vec![1.0, -1.0]), O::Poly(vec![0.0, 1.0])), (O::Poly(vec![0.5]), O::Poly(vec![0.5])), (O::Poly(vec![0.75, -0.5]), O::Poly(vec![0.25, 0.5])), (O::Poly(lo), O::Poly(hi))]
     }
 }
 
@@ -375,7 +384,7 @@ impl Suites {
             eu: Suite::new(n, &ExpectedUtility::alphabet(), s),
             cx: Suite::new(n, &Complex::alphabet(), s),
             rat: Suite::new(n, &RationalSemiring::alphabet(), 1),
-            poly: Suite::new(n, &Polynomial::<RealSemiring>::alphabet(), s * big),
+            poly: Suite::new(n, &Polynomial::<RealSemiring>::alphabet(), s),
         }
     }
 }
